@@ -41,7 +41,7 @@ func vKVConfig(o vTableOpts) kv.Config {
 		cfg.BranchFactor = o.bf
 	}
 	if o.cache > 0 {
-		cfg.NodeCache = mast.NewNodeCache(o.cache)
+		cfg.NodeCache = newNodeCache(o.cache) // the cache OpenKV configures
 	}
 	return cfg
 }
